@@ -61,6 +61,7 @@ class Ctx:
         body = site.body
         self.bodies.add(body.npath)
         edges = body.guard_edges(pred)
+        edges = body.derive_edges(edges, pred, start)
         ok = bool(edges) and body.must_pass_edges(site.bb, edges, start, correlate)
         self.ob(rule, instance, ok, site.loc(),
                 ("guard present on all paths: " if ok else "a path reaches this site without the guard: ") + desc)
